@@ -1,7 +1,17 @@
 ---------------------------- MODULE MergeEngine_MC ----------------------------
 (* Exhaustive exploration of engine histories (SpecE: register / add_cset / replace_cset / csets[..] /
    hooks in ANY order, trigger bodies failing in every way) and of operation histories (SpecO:
-   finish() with retries while triggers and format/repository calls fail), one engine mode per run.
+   finish() with retries while triggers and format/repository calls fail); the engine mode is chosen
+   in the initial state (RunModes).  Every step is one public call; MaxSteps bounds the history.
+
+   Checked (SpecE): InvRun - whatever hook is called next, its run satisfies PriorityOrdered, TiesInOrder,
+   ExactlyOnce, Bracketed, PhaseScoped, StopsAtFailure, Notices, AskedOnly, OncePerRun, ComputedThisRun,
+   PreservedKept (InvOrder / InvBracket / InvLazy are the same statements grouped, used by the vacuity
+   guards: StableSort = FALSE must break InvOrder, RegenPerHook = FALSE InvLazy, EndOnFailure = FALSE
+   InvBracket); InvCoherent, InvPreservedOnce, InvRegistered; action properties PreservedStable,
+   HooksGrowOnly, Regenerated, FailureFrame.
+   Checked (SpecO): InvOp (OpOrdered, UnderLock, NoRerun), InvDonePrefix, InvLockHeld, InvAbandon;
+   action properties DoneGrows, FinishCompletes, FailedStageNotDone.
 
    Universe: five triggers
      ta  priority 50, pre_merge/merge/pre_unmerge/unmerge/(bogus), required csets by mode (dict; the
@@ -150,6 +160,8 @@ InvOp == LET r == FinishOf IN
          /\ \A k \in DOMAIN r.log : r.log[k].k = "hook" => r.log[k].h \in HookSet(Mode)
 InvDonePrefix == DonePrefix(op)
 InvLockHeld == (op.live /\ ~AllDone(op)) => op.locks > 0
+\* giving up an operation that went through `start` once leaves neither the lock nor a tempspace behind
+InvAbandon == op.starts <= 1 => LET a == Abandon(op) IN a.locks = 0 /\ a.tmps = 0
 \* a completed stage stays completed; a failed finish() completes nothing after the stage that failed
 DoneGrows == [][op.done \subseteq op'.done]_vars
 FinishCompletes == [][(last'.op = "finish" /\ last'.res = "ok") => AllDone(op')]_vars
